@@ -24,8 +24,10 @@ CHECKS = {
    technique="deterministic simulation (scoped): model-based checking of GpOptimiser propose/add histories under a seeded global random stream, with outlier / near-duplicate evaluation faults; formula clauses only spot-checked at reached states",
    text=("SCOPED: decides the history clauses of C18 - every proposal inside the closed search box, an added evaluation is part of the data "
          "the next regressor is fitted to and updates the incumbent, every array passed by the caller stays byte- and shape-identical - for "
-         "generated sequences of propose / add (proposal, seeded point, near-duplicate, outlier) calls over d in {1,2}, EI/UCB/max-variance, "
-         "bfgs/differential evolution, with/without y_err, several input array forms. The formula clauses (EI both branches, UCB, max "
+         "generated sequences of propose / add (proposal, seeded point, near-duplicate, outlier) calls over d in {1,2,3}, 3-40 evaluations held, "
+         "EI/UCB/max-variance/default acquisition, bfgs/differential evolution, 1-3 processes, with/without y_err, several input array forms, a second "
+         "optimiser interleaved, kappa changed on the live acquisition, read-only likelihood queries on the live regressor; the hyper-parameter "
+         "limits of each refit must be those estimated from the current data. The formula clauses (EI both branches, UCB, max "
          "variance, value-and-gradient form) are pure functions of the regressor state; they are attached only as spot oracles at the states "
          "the histories reach (EI vs quadrature in log space, gradients vs two-step central differences). No coverage 'for all predictive "
          "means and variances' is claimed."),
@@ -39,8 +41,11 @@ CHECKS = {
          "points plus immediate reverse-trajectory replay; ensemble: stretch geometry about the partner, z-law, z^(d-1) factor, incl. "
          "retries). Layer B: 30 sampler/target/temperature configurations x 8k-200k replicas started from exact draws of pi^(1/T); the "
          "state after 1-3 attempts must have uniform probability-integral transforms (exact binomial + chi-square at p<1e-9 after "
-         "Bonferroni). Layer C: variance ratio / mean offset of long chains, gross threshold 0.25, fine 6 se + 0.03. Known findings F1 "
-         "(retry-until-accept), F2 (reflected stretch), F4 (bounded HMC with matrix mass) are reported as KNOWN-FINDING."),
+         "Bonferroni). Layer C: variance ratio / mean offset of long chains, gross threshold 0.25, fine 6 se + 0.03. Layer D: calibration of "
+         "the decisions over long runs (accepted minus sum of MH probabilities per proposal stratum, alarm at 6.5 sd) - needs no knowledge of "
+         "which uniform a decision used (uniforms drawn in blocks leave layer A only the uphill rule). A-big: layer A once on 200 parameters / "
+         "212 walkers. Histories include exchanges, mass re-estimation and save/load with a second restored twin stepping in between. Known "
+         "findings F1 (retry-until-accept), F2 (reflected stretch), F4 (bounded HMC with matrix mass) are reported as KNOWN-FINDING."),
    design_ref="DESIGN.md 3.1",
    note="Trusted: harness targets (exact samplers/CDFs of pi^(1/T)); a decision is judged only when its uniform is identifiable in the history (else counted uninterpretable, layers B/C remain); statistical layers bound, not exclude, distributional error."),
  "C04": dict(
@@ -50,7 +55,8 @@ CHECKS = {
          "by constructor bounds. Oracles: every evaluated point and stored sample inside the closed limits (4 ulp at limit scale); "
          "Gibbs proposals equal the exact rational fold of the recorded raw draw; Bounds.reflect / reflect_momenta equal the exact "
          "fold incl. multi-wrap overshoots, identity inside, momentum factor -1 exactly for odd reflection counts; a bounded "
-         "trajectory run forward, negated and run again returns to its start (diagonal mass)."),
+         "trajectory run forward, negated and run again returns to its start (diagonal mass). Histories include save/load, rejected limit "
+         "calls, the caller re-filling its start array, and starts outside the bounds (refused by the constructor or else monitored)."),
    design_ref="DESIGN.md 3.3",
    note="Trusted: limits are only set where they contain the parameter's current value; reversibility is only demanded for scalar/vector mass (with a matrix mass component flips do not reverse the trajectory - see DESIGN.md, C01 finding)."),
  "C09": dict(
@@ -59,8 +65,10 @@ CHECKS = {
    text=("Crash-restart is a generated operation placed before any step, around the first adaptation / direction update (check "
          "intervals randomised 2..100), after many steps and twice in a row. After every op all public read-outs of the restarted "
          "sampler equal the never-saved one bit for bit (samples, log-probs, lengths, bounds, mode, burn-in estimate); continuation "
-         "is compared sample for sample, so any tuning state lost by save/load surfaces as a divergence; plotting / interval / "
-         "marginal calls that work on the original must work on the reloaded object."),
+         "is compared sample for sample, so any tuning state lost by save/load surfaces as a divergence; every number under the attribute "
+         "names the samplers themselves save (REPORTED_STATE) is compared original vs reloaded after every op; plotting / interval / "
+         "marginal calls that work on the original must work on the reloaded object. Faults: tail draws, the posterior raising in the "
+         "middle of an advance (both samplers live through it, save right after). Known finding F5 is reported as KNOWN-FINDING."),
    design_ref="DESIGN.md 3.5",
    note="Trusted: generators are matched between original and reloaded object by attribute path; torn .npz writes are not injected."),
  "C15": dict(
@@ -71,16 +79,22 @@ CHECKS = {
          "deep copy advanced serially; run_for never reads the clock more than 1000 times without an evaluation before its "
          "deadline, does not return before the budget is used up, overshoots by at most about one batch, for 0.2 ms to 10 min "
          "per evaluation; ParallelTempering.advance / run_for inside the process simulation (cycle arithmetic, progress watch); "
-         "histories include save/load. An evaluation budget per operation turns a non-terminating step into a reported violation."),
+         "histories include save/load, runs of thousands of steps, advances interrupted by a raising posterior (own exception type and "
+         "StopIteration: an advance that returns normally added exactly m), positional run_for calls, budgets of days, pools built from "
+         "shared input objects and larger than the simulated core count. An evaluation budget per operation turns a non-terminating step "
+         "into a reported violation."),
    design_ref="DESIGN.md 3.7",
-   note="Trusted: SimPool implements Pool.map (pickled jobs/results, FIFO queue, results in input order); progress/overshoot thresholds as stated in the evidence assumptions. Known finding F3 (proposal width overflow on flat posteriors) is reported as KNOWN-FINDING."),
+   note="Trusted: SimPool implements Pool.map (pickled jobs/results, FIFO queue, results in input order); progress/overshoot thresholds as stated in the evidence assumptions. Known finding F3 (proposal width / HMC step size overflow on flat posteriors) is reported as KNOWN-FINDING."),
  "C03": dict(
    engine="E1 lifecycle + kernel interleaving",
    technique="deterministic simulation: seeded operation histories on real samplers with recording RNG proxies, tail-draw / edge-uniform / exchange faults; groups built from shared input arrays interleaved at every posterior call by the seeded scheduler and compared with solo re-runs",
    text=("After every operation of every generated history the stored log-probability of each new row is recomputed from the "
          "pure target (probs[k] == posterior(sample[k])/T), mode() must be a stored row with maximal stored value, every input "
          "array must be byte-identical to its snapshot, and each sampler of an interleaved group must reproduce its solo "
-         "trajectory. Exploration by seeded search with shrinking and replay; evidence, not proof."),
+         "trajectory; read-only / diagnostic / plotting calls must leave the recorded chain and the generators unchanged. Histories include "
+         "exchanges (also under the real ParallelTempering), save/load, the caller overwriting its start array, advances interrupted by a "
+         "raising posterior, integer-typed and zero-probability starts, 5-9 parameters, runs of thousands of steps. Exploration by seeded "
+         "search with shrinking and replay; evidence, not proof."),
    design_ref="DESIGN.md 3.2",
    note="Trusted: harness targets are pure functions; interleaving is at posterior-call granularity (the samplers are synchronous objects, there is no finer pre-emption point that touches shared state)."),
  "C14": dict(
@@ -88,7 +102,10 @@ CHECKS = {
    technique="deterministic simulation: model-based checking of read-outs against a vector-of-rows reference after every operation of seeded histories that include exchanges and crash-restarts (save -> drop -> load)",
    text=("Reference model = rows read at burn=0/thin=1. After each op seeded (burn, thin, fraction, count) queries are compared "
          "with numpy slicing of the model: contents, shapes (incl. 0 and 1 retained rows), row alignment, marginal sample "
-         "multiset, and for get_interval membership of (row, log-prob) pairs in the top fraction, count and 2-D shape."),
+         "multiset (and the values the final fit of a unimodal estimate used, incl. one > 8000-value case), and for get_interval membership "
+         "(with multiplicity) of (row, log-prob) pairs in the top fraction, count and 2-D shape; entries read out earlier must stay what "
+         "they were when the chain grows (an exchange replaces the last entry only); read-outs and diagnostics leave the chain unchanged; "
+         "chains of more than 4096 rows, burn up to 2047, thin up to 333."),
    design_ref="DESIGN.md 3.6",
    note="Trusted: the size of the 'top fraction' is n - int(n(1-f)) with one row of slack; with a sample count either the caller's thin or max(n_burned//count,1) is accepted."),
  "C08": dict(
@@ -97,7 +114,9 @@ CHECKS = {
    text=("Seeded search over op sequences x schedules x fault mixes of the real parallel-tempering code on a simulated "
          "multiprocessing layer. Invariants: pair disjointness, exchange rule replayed from recorded draws, hand-over / "
          "re-tempering / untouched checks from return_chains() snapshots, provenance of every row added by advance(), "
-         "digest equality of the returned chains across schedules, equal advancement, no deadlock, bounded shutdown. "
+         "digest equality of the returned chains across schedules, equal advancement, no deadlock, bounded shutdown; 1-10 chains, "
+         "unsorted ladders, chains starting at log-density -inf, steep targets (exchange exponents in the thousands), start points sharing "
+         "one coordinate, single commands of 501-1501 steps, the caller mutating the chain list it passed, conservation stat jobs. "
          "Sampling, not enumeration: a clean batch is evidence, not proof."),
    design_ref="DESIGN.md 3.4",
    note="Trusted: simkit kernel/transport implement the documented multiprocessing contract (FIFO per pipe, pickled payloads, blocking recv, timed poll, join); worker crashes and broken pipes are not injected."),
@@ -130,7 +149,7 @@ def build():
                  kind_free_text="deterministic discrete-event simulator (baton-passing threads, simulated multiprocessing transport, recording RNG proxies, fake clock), Hypothesis as seeded scenario generator/shrinker, replay files"),
         ],
         checks=checks,
-        notes="Technique family: deterministic simulation with fault injection. See DESIGN.md. Known findings (F1, F2, F3, F4) and the list of repaired defects are in /verif/known_findings.json. Self-tests: selftest/determinism.py, selftest/mutants.py.",
+        notes="Technique family: deterministic simulation with fault injection. See DESIGN.md. Known findings (F1-F5) and the list of repaired defects are in /verif/known_findings.json. Self-tests: selftest/determinism.py, selftest/mutants.py (104 mutants / refactors), selftest/seeded.py (104 independently written breaking changes under seeded/).",
         not_applicable=[dict(property_id=k, reason=v) for k, v in sorted(NA.items())],
     )
     with open(os.path.join(HERE, "MANIFEST.json"), "w") as f:
